@@ -457,6 +457,13 @@ func (e *env) spendingHistory(id int) (string, interface{}) {
 		case choice < 76: // update proposal
 			p := pickPool()
 			t := e.genTerms(now, true)
+			if cur := k.GetSpendingPool(h, poolNames[p]); cur != nil && r.Chance(30) {
+				// the settings re-sent unchanged (or with only the window moved)
+				t = termsT{cur.ClaimStart, cur.ClaimEnd, 0, cur.Rates, *cur.Beneficiaries, cur.DynamicRate, cur.DynamicRatePeriod}
+				if r.Chance(40) {
+					t.Start = uint64([]int64{0, now - 1000, int64(cur.ClaimStart)}[r.Intn(3)])
+				}
+			}
 			t.Expiry = 0 // the proposal has no such field
 			opCoq = fmt.Sprintf("OUpdate %d %s", p, e.termsCoq(t))
 			j["op"], j["p"], j["terms"] = "update_proposal", p, e.termsCoq(t)
@@ -666,6 +673,11 @@ func (e *env) ubiHistory(id int, witness bool) (string, interface{}) {
 				rec.DistributionStart, rec.DistributionEnd, rec.Amount = uint64(now-5), 0, 2
 				rec.Pool = "pa"
 			}
+			if cur := uk.GetUBIRecordByName(h, rec.Name); cur != nil && !witness && r.Chance(35) {
+				// the same record upserted again: same / earlier / zero start
+				rec = *cur
+				rec.DistributionStart = []uint64{cur.DistributionStart, 0, uint64(now - 1), cur.DistributionLast}[r.Intn(4)]
+			}
 			lastPeriod = rec.Period
 			if lastPeriod == 0 || lastPeriod > 1000 {
 				lastPeriod = 3
@@ -771,7 +783,16 @@ func (e *env) collHistory(id int, witness bool) (string, interface{}) {
 		}
 		return out
 	}
+	// "settings re-sent" scripts: after an accepted lock, the same contributor sends the settings message
+	// again with a zero / lower / equal / expired unlock time and then tries to withdraw at once
+	type forcedOp struct {
+		choice, a, ci int
+		lock       uint64
+		don        sdk.Dec
+	}
+	var forced []forcedOp
 	for step := 0; step < nops; step++ {
+		prevNow := now
 		switch r.Intn(5) {
 		case 0:
 		case 1:
@@ -795,9 +816,18 @@ func (e *env) collHistory(id int, witness bool) (string, interface{}) {
 			choice, ci = wChoice[step], 0
 			now++
 		}
+		var fo *forcedOp
+		if !witness && len(forced) > 0 {
+			fo = &forced[0]
+			forced = forced[1:]
+			choice, ci = fo.choice, fo.ci
+			now = prevNow + r.Range(0, 2)
+		}
 		var opCoq string
 		j := map[string]interface{}{"t": now, "c": ci}
 		var f func(c sdk.Context) error
+		lastDonate := forcedOp{a: -1}
+		lastDlock := false
 		switch {
 		case choice < 8: // create
 			a := r.Intn(len(e.accts))
@@ -865,6 +895,10 @@ func (e *env) collHistory(id int, witness bool) (string, interface{}) {
 			if witness {
 				a, lock, don, dlock = 1, 0, sdk.MustNewDecFromStr(wDon[step]), false
 			}
+			if fo != nil {
+				a, lock, don, dlock = fo.a, fo.lock, fo.don, false
+			}
+			lastDonate, lastDlock = forcedOp{choice: 40, a: a, ci: ci, lock: lock, don: don}, dlock
 			opCoq = fmt.Sprintf("CDonate %d %d %s %s %s", a, ci, hx.ZU(lock), hx.ZBig(don.BigInt()), hx.B(dlock))
 			j["op"], j["a"], j["lock"], j["donation"], j["dlock"] = "donate", a, lock, don.String(), dlock
 			f = func(c sdk.Context) error {
@@ -882,6 +916,9 @@ func (e *env) collHistory(id int, witness bool) (string, interface{}) {
 			}
 			if witness {
 				a = 1
+			}
+			if fo != nil {
+				a = fo.a
 			}
 			opCoq = fmt.Sprintf("CWithdraw %d %d", a, ci)
 			j["op"], j["a"] = "withdraw", a
@@ -929,6 +966,14 @@ func (e *env) collHistory(id int, witness bool) (string, interface{}) {
 		}
 		err, pan := e.run(h, now, f)
 		rc := resCode(err, pan)
+		if rc == 0 && fo == nil && !witness && lastDonate.a >= 0 && !lastDlock && int64(lastDonate.lock) > now && r.Chance(60) {
+			again := lastDonate
+			again.lock = []uint64{0, lastDonate.lock - 1, lastDonate.lock, uint64(now), 0, 1}[r.Intn(6)]
+			if r.Chance(30) {
+				again.don = sdk.MustNewDecFromStr(donationStrs[r.Intn(len(donationStrs))])
+			}
+			forced = append(forced, again, forcedOp{choice: 60, a: lastDonate.a, ci: ci})
+		}
 		dl, nb, dj := e.deltas(h, bals)
 		bals = nb
 		obs := e.collObs(h)
@@ -942,6 +987,56 @@ func (e *env) collHistory(id int, witness bool) (string, interface{}) {
 		kind = "coll_drift_witness"
 	}
 	return fmt.Sprintf("CColl %s %s %s", bank0, mod0, hx.List(steps)), map[string]interface{}{"kind": kind, "id": id, "bank0": bank0, "mod0": mod0, "ops": js}
+}
+
+// ================================================================ probes
+// Three small fixed runs decide which variant of the model the tree is compared with (each variant
+// is a parameter of the Coq model; the theorems are stated for both values).
+func (e *env) probes() map[string]bool {
+	out := map[string]bool{}
+	// 1. spending EndBlocker with DynamicRatePeriod = 0 and a registered beneficiary: panic or skip
+	{
+		c, _ := e.base.CacheContext()
+		k := e.app.SpendingKeeper
+		k.SetSpendingPool(c, sptypes.SpendingPool{Name: "probe", Rates: sdk.DecCoins{}, VoteQuorum: sdk.NewDecWithPrec(51, 2), Owners: &sptypes.PermInfo{},
+			Beneficiaries: &sptypes.WeightedPermInfo{Accounts: []sptypes.WeightedAccount{{Account: e.accts[0].String(), Weight: sdk.OneDec()}}},
+			Balances: sdk.NewCoins(sdk.NewInt64Coin("ukex", 100)), DynamicRate: true, DynamicRatePeriod: 0})
+		k.SetClaimInfo(c, sptypes.ClaimInfo{PoolName: "probe", Account: e.accts[0].String(), LastClaim: uint64(T0)})
+		out["spending_endblock_guards_denominator"] = hx.Try(func() { k.EndBlocker(c) }) == ""
+	}
+	// 2. ubi EndBlocker on a record whose last+period exceeds 2^64: distributed (wrap-around) or not
+	{
+		c, _ := e.base.CacheContext()
+		uk := e.app.UbiKeeper
+		for _, rec := range uk.GetUBIRecords(c) {
+			uk.DeleteUBIRecord(c, rec.Name)
+		}
+		uk.SetUBIRecord(c, ubitypes.UBIRecord{Name: "probe", DistributionStart: uint64(T0 - 5), DistributionLast: uint64(T0 - 5), Amount: 1, Period: 1<<64 - 1, Pool: "ValidatorBasicRewardsPool"})
+		ubi.EndBlocker(c, uk)
+		out["ubi_gate_without_wraparound"] = uk.GetUBIRecordByName(c, "probe").DistributionLast == uint64(T0-5)
+	}
+	// 3. remove proposal on a collective whose donation address is one unit short: error returned or swallowed
+	{
+		c, _ := e.base.CacheContext()
+		k := e.app.CollectivesKeeper
+		ms := colkeeper.NewMsgServerImpl(k)
+		e.fund(c, e.accts[0], sdk.NewCoins(sdk.NewInt64Coin("xeth", 10)))
+		must := func(err error) {
+			if err != nil {
+				panic(err)
+			}
+		}
+		_, err := ms.CreateCollective(sdk.WrapSDKContext(c), &coltypes.MsgCreateCollective{Sender: e.accts[0].String(), Name: "probe", Description: "d", Bonds: sdk.NewCoins(sdk.NewInt64Coin("xeth", 10)),
+			DepositWhitelist: coltypes.DepositWhitelist{Any: true}, OwnersWhitelist: coltypes.OwnersWhitelist{Accounts: []string{e.accts[0].String()}},
+			SpendingPools: []coltypes.WeightedSpendingPool{{Name: "nopool", Weight: sdk.OneDec()}}, ClaimPeriod: 20000, VoteQuorum: sdk.NewDecWithPrec(51, 2), VotePeriod: 600, VoteEnactment: 300})
+		must(err)
+		for _, d := range []string{"0.5", "1", "0.5", "0.75"} {
+			_, err := ms.DonateCollective(sdk.WrapSDKContext(c), &coltypes.MsgDonateCollective{Sender: e.accts[0].String(), Name: "probe", Locking: 0, Donation: sdk.MustNewDecFromStr(d)})
+			must(err)
+		}
+		out["collective_remove_returns_error"] = collectives.NewApplyCollectiveRemoveProposalHandler(k).Apply(c, 1, &coltypes.ProposalCollectiveRemove{Name: "probe"}, sdk.ZeroDec()) != nil
+	}
+	return out
 }
 
 // ================================================================ main
@@ -985,6 +1080,7 @@ func main() {
 		panic(err)
 	}
 
+	probes := e.probes()
 	var cases []string
 	var js []interface{}
 	add := func(c string, j interface{}) { cases = append(cases, c); js = append(js, j) }
@@ -1019,10 +1115,14 @@ func main() {
 	}
 	pre.WriteString("Definition c18_actors : list (Z * list Z) := " + hx.List(as) + ".\n")
 	pre.WriteString("Definition c18_denoms : list Z := [0; 1; 2].\n")
+	pre.WriteString("(* model variants, decided by probing the tree *)\n")
+	pre.WriteString("Definition c18_dynguard : bool := " + hx.B(probes["spending_endblock_guards_denominator"]) + ".\n")
+	pre.WriteString("Definition c18_gate_exact : bool := " + hx.B(probes["ubi_gate_without_wraparound"]) + ".\n")
+	pre.WriteString("Definition c18_remove_atomic : bool := " + hx.B(probes["collective_remove_returns_error"]) + ".\n")
 	out.WriteFile("pre.v", pre.String())
 	out.WriteFile("cases.txt", strings.Join(cases, "\n")+"\n")
-	out.WriteJSON("meta.json", map[string]string{"case_type": "c18_case", "mismatch_fn": "c18_mismatches c18_actors c18_denoms", "violation_fn": "c18_violations c18_actors c18_denoms"})
+	out.WriteJSON("meta.json", map[string]string{"case_type": "c18_case", "mismatch_fn": "c18_mismatches c18_dynguard c18_gate_exact c18_remove_atomic c18_actors c18_denoms", "violation_fn": "c18_violations c18_actors c18_denoms"})
 	out.WriteJSON("cases.json", js)
-	out.WriteJSON("dist.json", map[string]interface{}{"seed": seed, "histories": len(js), "ops_by_kind_and_result": e.dist, "accounts": len(e.accts), "denoms": denoms})
+	out.WriteJSON("dist.json", map[string]interface{}{"seed": seed, "histories": len(js), "ops_by_kind_and_result": e.dist, "probes": probes, "accounts": len(e.accts), "denoms": denoms})
 	fmt.Fprintf(os.Stderr, "c18: %d histories\n", len(js))
 }
